@@ -481,7 +481,17 @@ func (e *Engine) genReplayTest(vc *VC, plan *replayPlan, post *postInfo) (string
 			lens[it.Path] = n
 			if rest == "" {
 				// parameter itself is a slice
-				fmt.Fprintf(&body, "\t*%s = make(%s, %d)\n", root, it.Go, n)
+				goType := it.Go
+				for _, rp := range plan.params {
+					if rp.root == root {
+						goType = types.TypeString(rp.typ, qual)
+						collectImports(rp.typ, fn.Pkg.Pkg.Path(), imports)
+						if sl, ok := rp.typ.Underlying().(*types.Slice); ok {
+							collectImports(sl.Elem(), fn.Pkg.Pkg.Path(), imports)
+						}
+					}
+				}
+				fmt.Fprintf(&body, "\t*%s = make(%s, %d)\n", root, goType, n)
 			} else if n > 0 {
 				fmt.Fprintf(&body, "\tvrSetLen(%s, %q, %d)\n", root, rest, n)
 			}
